@@ -86,6 +86,12 @@ struct FnSpec {
     /// override of generic-parameter text `<...>` of the fn (monomorphisation, logged)
     #[serde(default)]
     rename: String,
+    /// R16: ordinals (source order) of `quote!` invocations whose BODY is left unspecified: each becomes a call of a
+    /// generated function `oq_<fn>_<k>(&a, &b, ..)` over its interpolated variables with the contract
+    /// `r@ == oq_<fn>_<k>_spec(a.toks(), b.toks(), ..)` for an uninterpreted spec function (a quote! is a function of what it
+    /// interpolates).  Used for the run-time helper functions that exist only as quote! bodies.
+    #[serde(default)]
+    opaque_quotes: Vec<usize>,
     /// name the emitted copy goes by in logs (monomorphised copies of one generic function)
     #[serde(default)]
     label: String,
@@ -482,6 +488,8 @@ struct Rw<'a> {
     in_tail_loop_depth: usize,
     iter_chain_idx: usize,
     closure_pat_seen: HashMap<String, usize>,
+    quote_idx: usize,
+    pre_items: String,
 }
 
 impl<'a> Rw<'a> {
@@ -958,10 +966,61 @@ impl<'a> Rw<'a> {
             .map(|s| s.ident.to_string())
             .unwrap_or_default();
         match name.as_str() {
-            "quote" => match self.qgen.gen_stream(mac.tokens.clone()) {
-                Ok(t) => self.replace(whole, t, "R2-quote"),
-                Err(e) => self.errors.push(e),
-            },
+            "quote" => {
+                let k = self.quote_idx;
+                self.quote_idx += 1;
+                if self.spec.opaque_quotes.contains(&k) {
+                    // R16: interpolated variables in order of first occurrence (repetitions are not supported here)
+                    fn scan(ts: TokenStream, out: &mut Vec<String>, bad: &mut bool) {
+                        let toks: Vec<TokenTree> = ts.into_iter().collect();
+                        let mut i = 0;
+                        while i < toks.len() {
+                            match &toks[i] {
+                                TokenTree::Punct(p) if p.as_char() == '#' && i + 1 < toks.len() => match &toks[i + 1] {
+                                    TokenTree::Ident(id) => {
+                                        let n = id.to_string();
+                                        if !out.contains(&n) { out.push(n); }
+                                        i += 2;
+                                        continue;
+                                    }
+                                    TokenTree::Group(g) if g.delimiter() == Delimiter::Parenthesis => { *bad = true; }
+                                    _ => {}
+                                },
+                                TokenTree::Group(g) => scan(g.stream(), out, bad),
+                                _ => {}
+                            }
+                            i += 1;
+                        }
+                    }
+                    let mut vars = Vec::new();
+                    let mut bad = false;
+                    scan(mac.tokens.clone(), &mut vars, &mut bad);
+                    if bad {
+                        self.errors.push(format!("R16: quote! #{} has a repetition and cannot be made opaque", k));
+                        return;
+                    }
+                    let fname = format!("oq_{}_{}", self.item.replace(|c: char| !c.is_alphanumeric(), "_"), k);
+                    let gens: Vec<String> = (0..vars.len()).map(|i| format!("Q{}: ToTokens", i)).collect();
+                    let params: Vec<String> = vars.iter().enumerate().map(|(i, v)| format!("{}: &Q{}", v, i)).collect();
+                    let sparams: Vec<String> = vars.iter().map(|v| format!("{}: Seq<Tok>", v)).collect();
+                    let sargs: Vec<String> = vars.iter().map(|v| format!("{}.toks()", v)).collect();
+                    let reqs: Vec<String> = vars.iter().map(|v| format!("{}.tokenizable()", v)).collect();
+                    self.pre_items.push_str(&format!(
+                        "/// R16: the body of quote! #{k} of {item} (not specified: a function of what it interpolates)\npub uninterp spec fn {f}_spec({sp}) -> Seq<Tok>;\n#[verifier::external_body]\npub fn {f}{g}({p}) -> (r: TokenStream)\n    {req}ensures r@ == {f}_spec({sa}),\n{{ unimplemented!() }}\n",
+                        k = k, item = self.item, f = fname, sp = sparams.join(", "),
+                        g = if gens.is_empty() { String::new() } else { format!("<{}>", gens.join(", ")) },
+                        p = params.join(", "),
+                        req = if reqs.is_empty() { String::new() } else { format!("requires {},\n    ", reqs.join(", ")) },
+                        sa = sargs.join(", ")));
+                    let args: Vec<String> = vars.iter().map(|v| format!("&{}", v)).collect();
+                    self.replace(whole, format!("{}({})", fname, args.join(", ")), "R16-opaque-quote");
+                    return;
+                }
+                match self.qgen.gen_stream(mac.tokens.clone()) {
+                    Ok(t) => self.replace(whole, t, "R2-quote"),
+                    Err(e) => self.errors.push(e),
+                }
+            }
             "parse_quote" => match self.qgen.gen_stream(mac.tokens.clone()) {
                 Ok(t) => self.replace(
                     whole,
@@ -1539,6 +1598,7 @@ fn line_of(text: &str, byte: usize) -> usize {
 // ---------------------------------------------------------------- fn extraction
 
 struct FnOut {
+    pre_items: String,
     text: String,
     src_start: usize,
     src_end: usize,
@@ -1580,6 +1640,8 @@ fn extract_fn(
         in_tail_loop_depth: 0,
         iter_chain_idx: 0,
         closure_pat_seen: HashMap::new(),
+        quote_idx: 0,
+        pre_items: String::new(),
     };
     let (_, wend) = br(whole);
     let (sig_s, sig_e) = br(sig.span());
@@ -1792,6 +1854,7 @@ fn extract_fn(
     }
     log.rewrites.extend(rw.log);
     Ok(FnOut {
+        pre_items: rw.pre_items.clone(),
         text,
         src_start: vis_start,
         src_end: wend,
@@ -3019,6 +3082,7 @@ fn main() {
                 }
                 // impl blocks: there may be several impl blocks for the same type; look in all
                 let mut impl_header: Option<String> = None;
+                let mut impl_pre_items = String::new();
                 let mut bodies: Vec<(String, String, &'static str, usize, usize)> = Vec::new();
                 for spec in fns {
                     let mut done = false;
@@ -3063,6 +3127,7 @@ fn main() {
                                     ) {
                                         Ok(fo) => {
                                             log.items.push(format!("fn {}::{}", file, label));
+                                            impl_pre_items.push_str(&fo.pre_items);
                                             bodies.push((
                                                 label,
                                                 fo.text,
@@ -3094,6 +3159,9 @@ fn main() {
                 } else {
                     impl_header.unwrap_or_else(|| format!("impl {}", self_ty))
                 };
+                if !impl_pre_items.is_empty() {
+                    emit!(impl_pre_items.clone(), format!("R16 items for {}", hdr), "raw", String::new(), 0, 0);
+                }
                 emit!(format!("{} {{\n", hdr), format!("impl header {}", hdr), "raw", String::new(), 0, 0);
                 if !extra.is_empty() {
                     emit!(extra.clone(), format!("spec items of {}", hdr), "raw", String::new(), 0, 0);
